@@ -168,8 +168,12 @@ def cmd_check(args):
             rc = 1
         elif inconcl:
             rc = 2
-        evidence.write(pid, tier, seed, kres, mres, notes_by_group, nviol, sorted(seen),
-                       inconcl, time.time() - t_start)
+        if os.environ.get("VERIF_REPO") or args.only:
+            # dev / triage runs (another tree than /repo, or a sub-selection) never touch the evidence
+            log("note: evidence file not written (VERIF_REPO or --only run)")
+        else:
+            evidence.write(pid, tier, seed, kres, mres, notes_by_group, nviol, sorted(seen),
+                           inconcl, time.time() - t_start)
         log("%s tier=%s: %d harnesses, %d MIR queries, violations=%d known=%d inconclusive=%d wall=%.0fs -> exit %d" % (
             pid, tier, len(kres), len(mres), nviol, len(seen), len(inconcl), time.time() - t_start, rc))
         return rc
